@@ -89,6 +89,7 @@ def run_deductive(pid, tier, jobs):
             oid = f"{h.name}::reaches-{c}"
             agg[oid] = {"status": "discharged" if c in r.covers else "failed", "instances": 1, "models": [],
                         "seconds": 0.0, "harness": h.name, "details": [], "reasons": [], "cover": True}
+    vacuous = [r.name for _, r in normal if not r.undecided and not r.error and r.nonvacuous_paths == 0]
     canary_ok = all(any(c.status == "failed" for c in r.checks) for _, r in canaries) if canaries else None
     loader = get_loader()
     functions = []
@@ -104,6 +105,7 @@ def run_deductive(pid, tier, jobs):
         "results": results,
         "agg": agg,
         "canary_ok": canary_ok,
+        "vacuous": vacuous,
         "undecided": [(r.name, r.undecided) for _, r in normal if r.undecided],
         "errors": [(r.name, r.error) for _, r in normal + canaries if r.error],
         "functions": functions,
@@ -202,6 +204,8 @@ def main(argv=None):
         if ded["errors"]:
             for n, e in ded["errors"]:
                 engine_errors.append(f"harness {n}: {e}")
+        for n in ded["vacuous"]:
+            engine_errors.append(f"harness {n}: every completed path has contradictory hypotheses (vacuous)")
         if ded["canary_ok"] is False:
             engine_errors.append("canary obligation did not fail: the pipeline cannot say no")
         for n, u in ded["undecided"]:
